@@ -431,9 +431,12 @@ fn expand(spec: &ReqSpec) -> (String, Vec<Act>) {
                 P(n) | Tail(n) => {
                     let v = &spec.params[pi];
                     pi += 1;
-                    adds.push(Act::Add(n.to_string(), rel, rel + v.len()));
+                    // the router matches the REQUOTED path (Url::path): offsets count its bytes
+                    let url = actix_router::Url::new(format!("/{v}").parse::<http::Uri>().unwrap());
+                    let qlen = url.path().len() - 1;
+                    adds.push(Act::Add(n.to_string(), rel, rel + qlen));
                     path.push_str(v);
-                    rel += v.len();
+                    rel += qlen;
                 }
             }
         }
@@ -657,8 +660,8 @@ fn run_history(steps: &[Step]) -> HistoryOut {
                             tokio::task::yield_now().await;
                         }
                         let w = link.io.take_written();
-                        if !w.starts_with(b"HTTP/1.1 200") {
-                            note = format!("conn response {:?}", String::from_utf8_lossy(&w[..w.len().min(40)]));
+                        if !(w.starts_with(b"HTTP/1.1 200") || w.starts_with(b"HTTP/1.0 200")) {
+                            note = format!("conn response {:?} to {:?}", String::from_utf8_lossy(&w[..w.len().min(40)]), String::from_utf8_lossy(&raw_request(spec, &uri)));
                         }
                         // the dispatcher owns and drops the response's HttpRequest itself
                     } else {
@@ -717,15 +720,42 @@ fn run_history(steps: &[Step]) -> HistoryOut {
     })
 }
 
+/// drive a future that never waits for IO or timers (service construction, handler calls)
+fn block_on_ready<F: std::future::Future>(f: F) -> F::Output {
+    let (_c, waker) = exec::CountWake::pair();
+    let mut f = Box::pin(f);
+    for _ in 0..1000 {
+        if let std::task::Poll::Ready(x) = exec::poll_once(f.as_mut(), &waker) {
+            return x;
+        }
+    }
+    panic!("future did not complete without a runtime");
+}
+
 /// the same request, alone, against a new service instance on a new thread
+/// (new thread = new thread-local head pool, new STASH/PLAN)
 fn fresh_dump(spec: &ReqSpec) -> Result<Dump, String> {
     let spec = spec.clone();
     std::thread::spawn(move || {
         let mut one = spec.clone();
         one.hold = false;
-        let h = run_history(&[Step::Req(one)]);
-        let s = &h.steps[0];
-        s.dump.clone().ok_or_else(|| format!("no dump from fresh service: {}", s.note))
+        if one.via == "conn" {
+            let h = run_history(&[Step::Req(one)]);
+            let s = &h.steps[0];
+            return s.dump.clone().ok_or_else(|| format!("no dump from fresh service: {}", s.note));
+        }
+        block_on_ready(async {
+            let app = make_app().await;
+            let (uri, _) = expand(&one);
+            set_plan(&one);
+            let req = build_request(&one, &uri);
+            let r = app.call(req).await;
+            let d = LAST_DUMP.with(|l| l.borrow_mut().take());
+            drop(r);
+            STASH.with(|s| s.borrow_mut().clear());
+            drop(app);
+            d.ok_or_else(|| "no dump from fresh service".to_string())
+        })
     })
     .join()
     .map_err(|_| "fresh run panicked".to_string())?
@@ -754,29 +784,36 @@ fn same_view(a: &Dump, b: &Dump) -> Result<(), String> {
 
 // ------------------------------------------------------------------ rendering: V and Gallina
 
+/// canonical result of one request. Only VL / VN / VH nodes (no tagged tuples): every string
+/// literal costs the Coq parser far more than a list node, and a history has thousands of them.
+/// An option is VL [] / VL [x]; a pair is VL [a; b].
 fn v_dump(d: &Dump, oo: usize, ho: usize) -> V {
-    let o = |x: &Option<u32>| V::opt(*x, |n| V::n(n));
-    V::T(
-        "r",
-        vec![
-            V::us(oo),
-            V::us(ho),
-            V::h(&d.method),
-            V::h(&d.uri),
-            V::n(d.version),
-            V::L(d.headers.iter().map(|(k, v)| V::T("h", vec![V::h(k), V::h(v)])).collect()),
-            o(&d.peer),
-            V::n(d.ctype),
-            V::h(&d.path_str),
-            V::h(&d.unprocessed),
-            V::L(d.mi.iter().map(|(k, v)| V::T("p", vec![V::h(k), V::h(v)])).collect()),
-            V::opt(d.pattern.as_ref(), V::h),
-            V::opt(d.name.as_ref(), V::h),
-            V::L(d.exts.iter().map(o).collect()),
-            V::L(d.app.iter().map(o).collect()),
-            V::L(d.conn.iter().map(o).collect()),
-        ],
-    )
+    let o = |x: &Option<u32>| match x {
+        None => V::L(vec![]),
+        Some(n) => V::L(vec![V::n(*n)]),
+    };
+    let os = |x: &Option<String>| match x {
+        None => V::L(vec![]),
+        Some(s) => V::L(vec![V::h(s)]),
+    };
+    V::L(vec![
+        V::us(oo),
+        V::us(ho),
+        V::h(&d.method),
+        V::h(&d.uri),
+        V::n(d.version),
+        V::L(d.headers.iter().map(|(k, v)| V::L(vec![V::h(k), V::h(v)])).collect()),
+        o(&d.peer),
+        V::n(d.ctype),
+        V::h(&d.path_str),
+        V::h(&d.unprocessed),
+        V::L(d.mi.iter().map(|(k, v)| V::L(vec![V::h(k), V::h(v)])).collect()),
+        os(&d.pattern),
+        os(&d.name),
+        V::L(d.exts.iter().map(o).collect()),
+        V::L(d.app.iter().map(o).collect()),
+        V::L(d.conn.iter().map(o).collect()),
+    ])
 }
 
 fn coq_cont(c: &[(u8, u32)]) -> String {
@@ -874,7 +911,7 @@ const HDRS: &[(&str, &[&str])] = &[
     ("x-token", &["secret-1", "secret-2", ""]),
 ];
 
-fn gen_req(rng: &mut Rng, conn_ok: bool) -> ReqSpec {
+fn gen_req(rng: &mut Rng, conn_ok: bool, httptest_ok: bool) -> ReqSpec {
     let route = if rng.chance(1, 5) { *rng.pick(&[5usize, 6, 9, 10]) } else { *rng.pick(&[0usize, 1, 2, 2, 3, 4, 4, 7, 8]) };
     let rt = &ROUTES[route];
     let mut params = vec![];
@@ -889,7 +926,7 @@ fn gen_req(rng: &mut Rng, conn_ok: bool) -> ReqSpec {
     }
     debug_assert_eq!(params.len(), rt.nparams);
     let via = match rng.below(100) {
-        0..=5 => "httptest",
+        0..=5 if httptest_ok => "httptest",
         6..=25 if conn_ok => "conn",
         _ => "test",
     }
@@ -918,9 +955,14 @@ fn gen_req(rng: &mut Rng, conn_ok: bool) -> ReqSpec {
         }
         v
     };
+    let mut method = rng.pick(&["GET", "GET", "POST", "PUT", "DELETE"]).to_string();
+    if via == "conn" && version == 10 && method == "POST" {
+        // the h1 decoder rejects an HTTP/1.0 POST without Content-Length (400, no request)
+        method = "GET".into();
+    }
     ReqSpec {
         conn: rng.below(3) as u32,
-        method: rng.pick(&["GET", "GET", "POST", "PUT", "DELETE"]).to_string(),
+        method,
         route,
         params,
         query: if rng.chance(1, 4) { Some(rng.pick(&["a=1", "q=x&r=%20", ""]).to_string()) } else { None },
@@ -938,6 +980,8 @@ fn gen_req(rng: &mut Rng, conn_ok: bool) -> ReqSpec {
 }
 
 fn gen_history(rng: &mut Rng, target: usize, big_bursts: bool) -> Vec<Step> {
+    let httptest_ok = rng.chance(3, 20);
+    let conn_ok = rng.chance(3, 5);
     let mut steps = vec![];
     let mut nreq = 0;
     while nreq < target {
@@ -948,7 +992,7 @@ fn gen_history(rng: &mut Rng, target: usize, big_bursts: bool) -> Vec<Step> {
                 let k = (*rng.pick(sizes)).min(target - nreq).max(1);
                 let by_stash = rng.chance(1, 2);
                 for _ in 0..k {
-                    let mut r = gen_req(rng, !by_stash);
+                    let mut r = gen_req(rng, conn_ok && !by_stash, httptest_ok);
                     if by_stash || r.via == "conn" {
                         r.stash = true;
                     } else {
@@ -964,7 +1008,7 @@ fn gen_history(rng: &mut Rng, target: usize, big_bursts: bool) -> Vec<Step> {
             6..=11 => steps.push(Step::ClearStash),
             12..=16 => steps.push(Step::ReleaseHeld),
             _ => {
-                let mut r = gen_req(rng, true);
+                let mut r = gen_req(rng, conn_ok, httptest_ok);
                 match rng.below(10) {
                     0 => r.stash = true,
                     1 => r.hold = r.via != "conn",
@@ -984,7 +1028,7 @@ fn gen_history(rng: &mut Rng, target: usize, big_bursts: bool) -> Vec<Step> {
 
 // ------------------------------------------------------------------ one case
 
-fn emit_case(em: &mut Emitter, id: String, steps: Vec<Step>) {
+fn make_case(id: String, steps: Vec<Step>) -> (CaseOut, bool) {
     let st2 = steps.clone();
     let r = std::thread::spawn(move || catch(|| run_history(&st2))).join().unwrap_or_else(|_| Err("thread panicked".into()));
     let nreq = steps.iter().filter(|s| matches!(s, Step::Req(_))).count();
@@ -1023,10 +1067,9 @@ fn emit_case(em: &mut Emitter, id: String, steps: Vec<Step>) {
     let known_class = if has_httptest { "http-test-request-head".to_string() } else { String::new() };
     match r {
         Err(p) => {
-            em.panics += 1;
             tags.sort();
             tags.dedup();
-            em.emit(CaseOut {
+            (CaseOut {
                 id,
                 input: serde_json::to_value(&steps).unwrap(),
                 coq_case: Some(coq_case(&steps)),
@@ -1038,7 +1081,7 @@ fn emit_case(em: &mut Emitter, id: String, steps: Vec<Step>) {
                 nontrivial: false,
                 sig: "panic".into(),
                 tags,
-            });
+            }, true)
         }
         Ok(h) => {
             // oracle: every request against a fresh service instance
@@ -1069,9 +1112,9 @@ fn emit_case(em: &mut Emitter, id: String, steps: Vec<Step>) {
                     }
                     (Step::Req(_), None) => {
                         why.push(format!("step {i}: {}", o.note));
-                        vs.push(V::t0("nodump"));
+                        vs.push(V::L(vec![V::n(0u8)]));
                     }
-                    _ => vs.push(V::t0("ok")),
+                    _ => vs.push(V::L(vec![])),
                 }
             }
             tags.push(format!("max-live:{}", match h.max_live { 0 => "0", 1..=16 => "1-16", 17..=127 => "17-127", 128 => "128", 129..=256 => "129-256", _ => "257+" }));
@@ -1091,7 +1134,7 @@ fn emit_case(em: &mut Emitter, id: String, steps: Vec<Step>) {
             for b in show.as_bytes() {
                 hsh = (hsh ^ *b as u64).wrapping_mul(0x100000001b3);
             }
-            em.emit(CaseOut {
+            (CaseOut {
                 id,
                 input: serde_json::to_value(&steps).unwrap(),
                 coq_case: Some(coq_case(&steps)),
@@ -1103,7 +1146,7 @@ fn emit_case(em: &mut Emitter, id: String, steps: Vec<Step>) {
                 nontrivial: h.reused_obj > 0 && h.reused_head > 0,
                 sig: format!("{:016x}-{}", hsh, nreq),
                 tags,
-            });
+            }, false)
         }
     }
 }
@@ -1155,32 +1198,57 @@ fn main() {
     let args = parse_args();
     learn_sizes();
     let mut em = Emitter::default();
+    let mut work: Vec<(String, Vec<Step>)> = vec![];
     for (id, j) in args.fixed_inputs() {
         let steps: Vec<Step> = serde_json::from_value(j).expect("case");
-        emit_case(&mut em, id, steps);
+        work.push((id, steps));
     }
     if args.case.is_none() {
         let mut rng = Rng::new(args.seed);
-        let n = args.n.unwrap_or(if args.thorough() { 120 } else { 40 });
+        let n = args.n.unwrap_or(if args.thorough() { 48 } else { 10 });
         for i in 0..n {
             let mut r = rng.fork();
             let (target, big) = if args.thorough() {
-                match i % 12 {
+                match i % 24 {
                     0 => (r.range(3000, 5000) as usize, true),
-                    1 | 2 => (r.range(600, 1500) as usize, true),
-                    3..=6 => (r.range(150, 300) as usize, false),
+                    1 | 2 | 3 => (r.range(600, 1500) as usize, true),
+                    4..=9 => (r.range(150, 300) as usize, false),
                     _ => (r.range(1, 80) as usize, false),
                 }
             } else {
-                match i % 8 {
-                    0 | 1 => (r.range(250, 300) as usize, false),
-                    2..=4 => (r.range(60, 200) as usize, false),
-                    _ => (r.range(1, 40) as usize, false),
+                match i % 10 {
+                    0 => (r.range(120, 150) as usize, false),
+                    1 => (r.range(50, 80) as usize, false),
+                    _ => (r.range(1, 25) as usize, false),
                 }
             };
             let steps = gen_history(&mut r, target, big);
-            emit_case(&mut em, format!("gen-{i}"), steps);
+            work.push((format!("gen-{i}"), steps));
         }
+    }
+    // cases are independent (each history and each fresh-service replay runs on its own thread):
+    // evaluate them on a few worker threads, emit in the original order
+    let jobs: usize = std::env::var("VERIF_C11_JOBS").ok().and_then(|s| s.parse().ok()).unwrap_or(6);
+    let next = AtomicUsize::new(0);
+    let results: Vec<std::sync::Mutex<Option<(CaseOut, bool)>>> = work.iter().map(|_| std::sync::Mutex::new(None)).collect();
+    std::thread::scope(|sc| {
+        for _ in 0..jobs.max(1) {
+            sc.spawn(|| loop {
+                let i = next.fetch_add(1, Ordering::SeqCst);
+                if i >= work.len() {
+                    break;
+                }
+                let (id, steps) = work[i].clone();
+                *results[i].lock().unwrap() = Some(make_case(id, steps));
+            });
+        }
+    });
+    for r in results {
+        let (c, panicked) = r.into_inner().unwrap().expect("case result");
+        if panicked {
+            em.panics += 1;
+        }
+        em.emit(c);
     }
     em.finish();
 }
